@@ -45,6 +45,16 @@ def shapes(rng, d):
         ("object+allOf", {"type": "object", "title": "Obj", "allOf": [{"minProperties": 0}], "default": d}),
         ("all-comp", {"anyOf": [sub], "oneOf": [sub2], "allOf": [{}], "not": {"const": "zz"}, "default": d}),
     ]
+    # the sub-schema of a composition declares a default of its own: the outer one is the composition's, not the member's
+    d2 = rng.choice([x for x in DEFAULTS + ["inner"] if not strict_eq(x, d)])
+    inner = dict(copy.deepcopy(sub2), default=d2)
+    out += [
+        ("anyOf-1-inner-default", {"anyOf": [copy.deepcopy(inner)], "default": d}),
+        ("oneOf-1-inner-default", {"oneOf": [copy.deepcopy(inner)], "default": d}),
+        ("allOf-1-inner-default", {"allOf": [copy.deepcopy(inner)], "default": d}),
+        ("allOf-trivial+inner-default", {"allOf": [{}, copy.deepcopy(inner)], "anyOf": [{}], "default": d}),
+        ("anyOf-2-inner-default", {"anyOf": [copy.deepcopy(inner), copy.deepcopy(sub)], "default": d}),
+    ]
     return [(label, s, copy.deepcopy(sub2)) for label, s in out]
 
 
